@@ -76,10 +76,13 @@ type Net struct {
 	// ConnectPolicy may fail ConnectTo / NewMessageSender. nil = always succeed.
 	ConnectPolicy func(from, to peer.ID) error
 
-	blocked []blockedSend
-	epoch   map[linkKey]int // connection generation per directed pair; a sender dies with its connection
-	closed  bool
-	wg      sync.WaitGroup
+	// KeepBlockedOnDisconnect: sends stalled when their connection closes stay stalled (the
+	// local stack has not noticed yet) instead of failing at once.
+	KeepBlockedOnDisconnect bool
+	blocked                 []blockedSend
+	epoch                   map[linkKey]int // connection generation per directed pair; a sender dies with its connection
+	closed                  bool
+	wg                      sync.WaitGroup
 }
 
 func NewNet() *Net {
@@ -299,7 +302,7 @@ func (n *Net) Disconnect(a, b peer.ID) {
 		n.epoch[k]++
 		var keep []blockedSend
 		for _, bs := range n.blocked {
-			if bs.k == k {
+			if bs.k == k && !n.KeepBlockedOnDisconnect {
 				*bs.fail = true
 				release = append(release, bs)
 			} else {
